@@ -20,7 +20,7 @@ def gen_classes(rng, malformed=False):
     for i in range(n):
         cid = f'K{i}'
         group = rng.choice(['', '', 'g', 'g:h', 'n', 'train'])
-        name = rng.choice([f't{i}'] * 6 + ['t', 't0', 'train_x'])   # collisions on purpose
+        name = rng.choice([f't{i}'] * 6 + ['t', 't0', 'train_x', 't_task'])   # collisions on purpose (an explicit name keeps a trailing `_task`)
         params = []
         for pn in rng.sample(['x', 'y', 'z', 'w'], rng.randint(0, 3)):
             p = {'name': pn}
@@ -237,6 +237,42 @@ def gen_case(rng, malformed=False, yaml_share=0.25, conflict=False, ctx_kind=Non
             'malformed': malformed, 'conflict': conflict}
 
 
+def gen_wildcard_case(rng):
+    """a pipeline module declared by wildcard (`tasks: <module>.*`): every task class of the module, also classes whose Python name
+    starts with an underscore, minus abstract ones; with and without an exclusion"""
+    spec = gen_case(rng, wellformed=True)
+    classes = spec['classes']
+    # rename a few classes to "private" names (class ids are only labels)
+    ren = {cid: ('_' + cid if rng.random() < 0.4 else cid) for cid in classes}
+    def rn(x):
+        return ren.get(x, x)
+    new = {}
+    for cid, c in classes.items():
+        c = copy.deepcopy(c)
+        for i in c['inputs']:
+            if i['by'] == 'class':
+                i['ref'] = rn(i['ref'])
+        if c.get('parent'):
+            c['parent'] = rn(c['parent'])
+        new[rn(cid)] = c
+    spec['classes'] = new
+    def fix(d):
+        if 'configs' in d:
+            for p in d['configs'].values():
+                fix(p)
+            return
+        if d.get('tasks'):
+            full = set(los(d['tasks'])) == set(classes)
+            d['tasks'] = '*' if full and rng.random() < 0.8 else [rn(x) for x in los(d['tasks'])]
+        if d.get('excluded_tasks'):
+            d['excluded_tasks'] = [rn(x) for x in los(d['excluded_tasks'])]
+    for d in spec['files'].values():
+        if isinstance(d, dict):
+            fix(d)
+    spec['family'] = 'wildcard'
+    return spec
+
+
 def gen_pattern_case(rng):
     """pattern inputs (`~literal`, `~literal.*`, `~~…`) declared at a namespace that is a proper ANCESTOR (or the root) of other
     namespaces holding matching tasks: a pattern reaches the tasks of exactly the declaring task's namespace, not of nested ones"""
@@ -297,6 +333,24 @@ def enc_data(d):
     return [[k, pl.to_model(v)] for k, v in d.items() if k not in STRUCT]
 
 
+def star_tasks(spec):
+    """what `tasks: <module>.*` stands for: every task class defined in the module, in definition order (`module.__dict__`)"""
+    return pl.order_classes(spec['classes'])
+
+
+def expand_star(spec):
+    """the spec with wildcard declarations written out (for the model and the reference; the files on disk keep the wildcard)"""
+    def ex(d):
+        d = dict(d)
+        if 'configs' in d:
+            d['configs'] = {k: ex(v) for k, v in d['configs'].items()}
+        for f in ('tasks', 'excluded_tasks'):
+            if d.get(f) == '*' or d.get(f) == ['*']:
+                d[f] = star_tasks(spec)
+        return d
+    return {**spec, 'files': {k: ex(v) for k, v in spec['files'].items()}}
+
+
 def enc_part(p, b):
     return {'data': enc_data(p), 'tasks': los(p.get('tasks', [])), 'excluded': los(p.get('excluded_tasks', [])),
             'uses': [pl.subst_paths(u, b) for u in los(p.get('uses', []))], 'main': bool(p.get('main_part', False))}
@@ -344,6 +398,7 @@ def enc_classes(spec):
 
 
 def encode(spec, b, mains=None):
+    spec = expand_star(spec)
     files, ctx_files = [], []
     for rel, d in spec['files'].items():
         path = str(b.path(rel))
